@@ -51,7 +51,7 @@ def positionalise(api, fn, args, kwargs):
 NUMPY_SCALARS = not os.environ.get('VERIF_NO_NUMPY_SCALARS')
 
 
-def numpyise(rng, args, kwargs):
+def numpyise(rng, args, kwargs, single=True):
     """the same call with (some of) its Python int / float arguments as np.int64 / np.float64 - what a caller holds who computed a
     step size, threshold, rank or index with NumPy (top-level arguments only; bools, None, strings and containers stay)"""
     n = [0]
@@ -62,7 +62,11 @@ def numpyise(rng, args, kwargs):
         if isinstance(v, float) and not np.isfinite(v):
             return v
         n[0] += 1
-        return np.int64(v) if isinstance(v, int) else np.float64(v)
+        if isinstance(v, int):
+            return np.int64(v)
+        # (a quarter of the converted floats in single precision: the value that arrives is then the rounded one - the contracts judge
+        # against the arguments as passed)
+        return np.float32(v) if single and rng.random() < 0.25 and abs(v) < 1e30 else np.float64(v)
     return tuple(conv(a) for a in args), {k: conv(v) for k, v in kwargs.items()}, n[0]
 
 
@@ -72,7 +76,9 @@ def call(api, fn, *args, prop=None, tags=(), detail=None, refusals=(), refusal_p
     input class)."""
     c = core.ctx()
     if c is not None and c.aux_rng is not None and NUMPY_SCALARS and c.aux_rng.random() < 0.15:
-        args, kwargs, n = numpyise(c.aux_rng, args, kwargs)
+        # (model constructors turn their continuous parameters into tensor entries: a single-precision parameter legitimately yields a
+        # single-precision operator, so only double-precision scalars are substituted there)
+        args, kwargs, n = numpyise(c.aux_rng, args, kwargs, single=not api.startswith('models.'))
         if n:
             c.events['numpy_scalar_arguments:' + api] += 1
     if kwargs and c is not None and c.aux_rng is not None and c.aux_rng.random() < 0.25:
